@@ -2,6 +2,7 @@ package mon
 
 import (
 	"fmt"
+	"math"
 	"strings"
 
 	stackage "github.com/JesseCoretta/go-stackage"
@@ -440,9 +441,77 @@ func c12Run(c *core.Ctx, idx int) {
 	if idx%50 == 0 {
 		c12Convert(c)
 	}
+	if idx%50 == 25 {
+		c12Shared(c)
+	}
 }
 
 // c12Convert: ConvertStack / ConvertCondition on non-convertible values.
+// c12Shared: alias and native forms of ONE underlying instance, held by different trees. Whatever IsEqual says about a
+// tree holding the instance natively against a twin holding the same instance, it says about the tree holding it as an
+// alias (or through a pointer) - also when the instance is not equal to itself (NaN) or carries an equality closure.
+func c12Shared(c *core.Ctx) {
+	r := c.Rng
+	var ex any = "plain"
+	what := "plain expression"
+	switch r.Intn(4) {
+	case 0:
+		ex, what = math.NaN(), "NaN expression"
+	case 1:
+		ex, what = []float64{1, math.NaN()}, "NaN inside a slice expression"
+	case 2:
+		ex, what = stackage.Or().Push("x", math.NaN()), "Stack expression holding NaN"
+	}
+	cd := stackage.Cond("k", stackage.Eq, ex)
+	if r.Chance(1, 3) {
+		cd.SetEqualityPolicy(func(any, any) error { return errPolicyRejects })
+		what += " + rejecting equality closure"
+	}
+	inner := stackage.Or().Push("s", math.NaN())
+	forms := []struct {
+		name string
+		c, s any
+	}{
+		{"alias", ACond(cd), AStack(inner)},
+		{"pointer to alias", func() any { a := ACond(cd); return &a }(), func() any { a := AStack(inner); return &a }()},
+		{"pointer", &cd, &inner},
+	}
+	f := forms[r.Intn(len(forms))]
+	wrap := func(v any) stackage.Stack {
+		if r.Bool() {
+			return stackage.And().Push("a", stackage.List().Push(v), "z")
+		}
+		return stackage.And().Push("a", v, "z")
+	}
+	seedState := *r
+	N, T := wrap(cd), wrap(cd)
+	*r = seedState
+	A := wrap(f.c)
+	desc := map[string]any{"instance": what, "form": f.name}
+	var nt, at, ta error
+	if p, msg, site := Guard(func() { nt, at, ta = N.IsEqual(T), A.IsEqual(T), T.IsEqual(A) }); p {
+		c.Violatef("panic:"+site+":shared-instance", desc, "IsEqual panicked: %s", msg)
+		return
+	}
+	if (nt == nil) != (at == nil) || (nt == nil) != (ta == nil) {
+		c.Violatef("shared-instance:IsEqual", desc, "one Condition (%s) held natively by two trees: IsEqual=%v; held as %s by one of them: %v / %v in the two directions", what, nt, f.name, at, ta)
+		return
+	}
+	*r = seedState
+	NS, TS := wrap(inner), wrap(inner)
+	*r = seedState
+	AS := wrap(f.s)
+	if p, msg, site := Guard(func() { nt, at, ta = NS.IsEqual(TS), AS.IsEqual(TS), TS.IsEqual(AS) }); p {
+		c.Violatef("panic:"+site+":shared-instance", desc, "IsEqual panicked: %s", msg)
+		return
+	}
+	if (nt == nil) != (at == nil) || (nt == nil) != (ta == nil) {
+		c.Violatef("shared-instance:IsEqual", desc, "one Stack (holding NaN) held natively by two trees: IsEqual=%v; held as %s by one of them: %v / %v", nt, f.name, at, ta)
+		return
+	}
+	c.Count("shared-instance-probes")
+}
+
 func c12Convert(c *core.Ctx) {
 	vals := []Awkward{
 		{"nil", func() any { return nil }}, {"AStack{}", func() any { return AStack{} }}, {"SStack{}", func() any { return SStack{} }},
